@@ -16,6 +16,7 @@ def handle (op : String) (args : Json) : Except String Json :=
   | "c06.measure" => LK.Driver.C06.run args
   | "c17.add_scalar" => LK.Driver.Misc.c17Scalar args
   | "c17.add_list" => LK.Driver.Misc.c17List args
+  | "c17.add_dense" => LK.Driver.Misc.c17Dense args
   | "c05.array_split" => LK.Driver.Misc.c05ArraySplit args
   | "c05.last_n" => LK.Driver.Misc.c05LastN args
   | "c20.sample" => LK.Driver.Misc.c20Sample args
